@@ -472,7 +472,9 @@ impl Target {
 
     pub(crate) fn is_grayscale_cleartype(&self) -> bool {
         match self {
-            Self::Smooth { mode, .. } => matches!(mode, SmoothMode::Normal | SmoothMode::Light),
+            // FreeType tests `load_flags & FT_LOAD_TARGET_LCD` (mask 3 << 16), which is also non-zero for
+            // FT_LOAD_TARGET_LIGHT (1 << 16): only the normal target counts as grayscale ClearType.
+            Self::Smooth { mode, .. } => matches!(mode, SmoothMode::Normal),
             _ => false,
         }
     }
